@@ -49,6 +49,8 @@ def check(chk, fx):
     width.check(chk, fx, classes=("LEN",), minimum=8)
     from .. import cexrules
     cexrules.buf(chk, fx)             # the three buffer classes: begin / end / get_view mean the same slice
+    from .. import primrules
+    primrules.prims(chk, fx, "BUFIT")
     from .. import termrules
     termrules.termapi(chk, fx)
     termrules.defarg(chk, fx)
